@@ -689,6 +689,9 @@ bool XMLReader::getName(XMLBuffer& toFill, const bool token)
                 // reset the start buffer to the new location of the cursor
                 charIndex_start = fCharIndex;
             }
+            // the refresh may have delivered nothing new (end of input)
+            if (fCharIndex+1 >= fCharsAvail)
+                return false;
             if ((fCharBuf[fCharIndex+1] < 0xDC00) || (fCharBuf[fCharIndex+1] > 0xDFFF))
                 return false;
 
@@ -730,6 +733,9 @@ bool XMLReader::getName(XMLBuffer& toFill, const bool token)
 
                     charIndex_start = fCharIndex;
                 }
+                // the refresh may have delivered nothing new (end of input)
+                if (fCharIndex+1 >= fCharsAvail)
+                    break;
                 if ( (fCharBuf[fCharIndex+1] < 0xDC00) ||
                         (fCharBuf[fCharIndex+1] > 0xDFFF)  )
                     break;
@@ -781,6 +787,9 @@ bool XMLReader::getNCName(XMLBuffer& toFill)
             // reset the start buffer to the new location of the cursor
             charIndex_start = fCharIndex;
         }
+        // the refresh may have delivered nothing new (end of input)
+        if (fCharIndex+1 >= fCharsAvail)
+            return false;
         if ((fCharBuf[fCharIndex+1] < 0xDC00) || (fCharBuf[fCharIndex+1] > 0xDFFF))
             return false;
 
@@ -832,6 +841,9 @@ bool XMLReader::getNCName(XMLBuffer& toFill)
 
                     charIndex_start = fCharIndex;
                 }
+                // the refresh may have delivered nothing new (end of input)
+                if (fCharIndex+1 >= fCharsAvail)
+                    break;
                 if ( (fCharBuf[fCharIndex+1] < 0xDC00) ||
                     (fCharBuf[fCharIndex+1] > 0xDFFF)  )
                     break;
